@@ -68,10 +68,170 @@ pub trait FbOps<C: SimColor> {
     fn fb_data_mut(&mut self) -> &mut [u8];
     /// `as_image() == ImageRaw::new(&data()[..used], size)` and `as_image().pixel(p) == pixel(p)` on the box
     fn as_image_consistent(&self, used: usize, pts: &[(i32, i32)]) -> Result<(), String>;
-    /// draw `as_image()` at the origin of a fresh draw_iter-only device of the same size; returns its memory
-    fn draw_as_image(&self, caps: u8, disc: u8) -> Result<Vec<Option<u32>>, String>;
+    /// draw `as_image()` (or a sub-image of it) as the plan says onto a fresh device of the same
+    /// size; returns the device memory
+    fn draw_as_image(&self, caps: u8, disc: u8, plan: &AsImagePlan) -> Result<Vec<Option<u32>>, String>;
     /// run `f` on the framebuffer as a type-erased target
     fn with_target(&mut self, f: &mut dyn FnMut(&mut DynTarget<'_, C>));
+}
+
+
+/// How a `ReadBackAsImage` step draws the image: where, which part, through a clip or not.
+/// Derived from the step (no tape draw), so old replay files keep their meaning.
+#[derive(Clone, Debug)]
+pub struct AsImagePlan {
+    pub at: [i32; 2],
+    pub sub: Option<[i32; 4]>,
+    pub clip: Option<[i32; 4]>,
+    /// the draining consumer may use k x next + unbounded for_each (image streams are finite)
+    pub unbounded: bool,
+}
+
+impl AsImagePlan {
+    pub fn plain() -> Self {
+        AsImagePlan { at: [0, 0], sub: None, clip: None, unbounded: false }
+    }
+    pub fn derive(si: usize, caps: u8, disc: u8, w: u32, h: u32) -> Self {
+        let mut x = det_hash(&(si as u64, caps, disc, w, h));
+        let mut take = |n: u64| -> u64 {
+            let v = x % n;
+            x = crate::rng::det_hash(&(x, n));
+            v
+        };
+        // one read-back in three stays the plain one (whole image at the origin)
+        if take(3) == 0 {
+            return AsImagePlan { unbounded: take(2) == 0, ..AsImagePlan::plain() };
+        }
+        let (wi, hi) = (w as i64, h as i64);
+        let coord = |take: &mut dyn FnMut(u64) -> u64, n: i64| -> i32 {
+            // mostly cut off at the top / left (that is where consumers skip), sometimes shifted in
+            match take(6) {
+                0 => 0,
+                1 => -1,
+                2 => -2,
+                3 => -(take(n.max(1) as u64 + 2) as i64) as i32,
+                4 => -3 - take(3) as i32,
+                _ => take(3) as i32,
+            }
+        };
+        let at = [coord(&mut take, wi), coord(&mut take, hi)];
+        let sub = if take(2) == 0 {
+            let x0 = take(wi.max(1) as u64 + 1) as i32 - (take(4) == 0) as i32;
+            let y0 = take(hi.max(1) as u64 + 1) as i32 - (take(4) == 0) as i32;
+            let sw = match take(3) {
+                0 => (wi as i32 - x0).max(0), // reaches the right edge exactly
+                1 => wi as i32 + 2,           // overlaps it
+                _ => take(wi.max(1) as u64 + 1) as i32,
+            };
+            let sh = match take(3) {
+                0 => (hi as i32 - y0).max(0),
+                1 => hi as i32 + 2,
+                _ => take(hi.max(1) as u64 + 1) as i32,
+            };
+            Some([x0, y0, sw, sh])
+        } else {
+            None
+        };
+        let clip = if take(2) == 0 {
+            let cx = take(wi.max(1) as u64) as i32;
+            let cy = take(hi.max(1) as u64) as i32;
+            Some([cx, cy, 1 + take(wi.max(1) as u64 + 1) as i32, 1 + take(hi.max(1) as u64 + 1) as i32])
+        } else {
+            None
+        };
+        AsImagePlan { at, sub, clip, unbounded: take(2) == 0 }
+    }
+    pub fn to_json(&self) -> J {
+        J::obj()
+            .set("at", J::ints(&[self.at[0] as i64, self.at[1] as i64]))
+            .set("sub_image", self.sub.map(|a| J::ints(&[a[0] as i64, a[1] as i64, a[2] as i64, a[3] as i64])).unwrap_or(J::Null))
+            .set("clipped", self.clip.map(|a| J::ints(&[a[0] as i64, a[1] as i64, a[2] as i64, a[3] as i64])).unwrap_or(J::Null))
+            .set("unbounded_drain", J::Bool(self.unbounded))
+    }
+    /// What the device memory must hold afterwards: the independent reading of "drawing it
+    /// reproduces the framebuffer's content" for a part of the image, an offset and a clip.
+    pub fn expected(&self, model: &[u32], w: u32, h: u32) -> Vec<Option<u32>> {
+        let img = R::xywh(0, 0, w as i64, h as i64);
+        let region = match self.sub {
+            None => img,
+            Some(a) => R::xywh(a[0] as i64, a[1] as i64, a[2].max(0) as i64, a[3].max(0) as i64).intersect(&img),
+        };
+        let clip = match self.clip {
+            None => img,
+            Some(a) => R::xywh(a[0] as i64, a[1] as i64, a[2].max(0) as i64, a[3].max(0) as i64).intersect(&img),
+        };
+        let mut out = vec![None; (w * h) as usize];
+        if region.is_empty() {
+            return out;
+        }
+        for y in 0..h as i64 {
+            for x in 0..w as i64 {
+                if !clip.contains(x, y) {
+                    continue;
+                }
+                let (sx, sy) = (x - self.at[0] as i64 + region.x0, y - self.at[1] as i64 + region.y0);
+                if region.contains(sx, sy) {
+                    out[(y * w as i64 + x) as usize] = Some(model[(sy * w as i64 + sx) as usize]);
+                }
+            }
+        }
+        out
+    }
+}
+
+fn rect_of4(a: &[i32; 4]) -> Rectangle {
+    Rectangle::new(Point::new(a[0], a[1]), Size::new(a[2].max(0) as u32, a[3].max(0) as u32))
+}
+
+/// Instantiated once per (colour, data order), not per framebuffer type.
+fn draw_image_plan<C: SimColor, I: embedded_graphics::image::ImageDrawable<Color = C>>(
+    img: &I,
+    w: usize,
+    h: usize,
+    caps: u8,
+    disc: u8,
+    plan: &AsImagePlan,
+) -> Result<Vec<Option<u32>>, String> {
+    use embedded_graphics::image::ImageDrawableExt;
+    let mut dev = SimDisplay::<C>::new(
+        Rectangle::new(Point::zero(), Size::new(w as u32, h as u32)),
+        caps,
+        crate::dev::DISCIPLINES[disc as usize],
+    );
+    dev.st.unbounded_ok = plan.unbounded;
+    crate::dev::take_unbounded_abort();
+    let at = Point::new(plan.at[0], plan.at[1]);
+    fn go<C: SimColor, J: embedded_graphics::image::ImageDrawable<Color = C>>(
+        img: &J,
+        at: Point,
+        clip: &Option<[i32; 4]>,
+        dev: &mut SimDisplay<C>,
+    ) -> Result<(), SimError> {
+        match clip {
+            None => Image::new(img, at).draw(dev),
+            Some(c) => Image::new(img, at).draw(&mut dev.clipped(&rect_of4(c))),
+        }
+    }
+    let r = guarded(|| match &plan.sub {
+        None => go(img, at, &plan.clip, &mut dev),
+        Some(a) => go(&img.sub_image(&rect_of4(a)), at, &plan.clip, &mut dev),
+    });
+    let endless = crate::dev::take_unbounded_abort();
+    match r {
+        Err(_) if endless => {
+            return Err(format!(
+                "the colour stream of as_image() did not end within area + {} colours on a draining target",
+                crate::dev::UNBOUNDED_LIMIT
+            ))
+        }
+        Err(p) => return Err(format!("drawing as_image() panicked: {}", p)),
+        Ok(Err(e)) => return Err(format!("drawing as_image() failed with {:?}", e)),
+        Ok(Ok(())) => {}
+    }
+    if dev.st.max_surplus > 0 && plan.clip.is_none() {
+        return Err(format!("drawing as_image() streamed {} surplus colour(s)", dev.st.max_surplus));
+    }
+    Ok(dev.st.memory)
 }
 
 macro_rules! fb_impl {
@@ -111,20 +271,9 @@ macro_rules! fb_impl {
                 }
                 Ok(())
             }
-            fn draw_as_image(&self, caps: u8, disc: u8) -> Result<Vec<Option<u32>>, String> {
-                let mut dev = SimDisplay::<$c>::new(
-                    Rectangle::new(Point::zero(), Size::new($w, $h)),
-                    caps,
-                    crate::dev::DISCIPLINES[disc as usize],
-                );
+            fn draw_as_image(&self, caps: u8, disc: u8, plan: &AsImagePlan) -> Result<Vec<Option<u32>>, String> {
                 let img = self.as_image();
-                Image::new(&img, Point::zero())
-                    .draw(&mut dev)
-                    .map_err(|e| format!("drawing as_image() failed with {:?}", e))?;
-                if dev.st.max_surplus > 0 {
-                    return Err(format!("drawing as_image() streamed {} surplus colour(s)", dev.st.max_surplus));
-                }
-                Ok(dev.st.memory)
+                draw_image_plan::<$c, _>(&img, $w, $h, caps, disc, plan)
             }
             fn with_target(&mut self, f: &mut dyn FnMut(&mut DynTarget<'_, $c>)) {
                 let mut t = InfallibleTarget(self);
@@ -280,6 +429,9 @@ const PROBES: &[&str] = &[
     "through_adapter_stack",
     "as_image_drawn_native_contiguous",
     "as_image_drawn_draining",
+    "as_image_sub_image_drawn",
+    "as_image_drawn_through_clipped",
+    "as_image_rows_hidden_skipping_consumer",
     "overwrite_same_pixel",
     "colour_zero_written",
     "x_mod_ppb_0",
@@ -730,23 +882,35 @@ fn run_typed<C: FbColor>(sc: &Scenario, opts: &Opts) -> RunOut {
                 if *disc == 3 {
                     out.probes |= probe("as_image_drawn_draining");
                 }
-                match guarded(|| fb.draw_as_image(*caps, *disc)) {
+                let plan = AsImagePlan::derive(si, *caps, *disc, w, h);
+                if plan.sub.is_some() {
+                    out.probes |= probe("as_image_sub_image_drawn");
+                }
+                if plan.clip.is_some() {
+                    out.probes |= probe("as_image_drawn_through_clipped");
+                }
+                if plan.at[1] < -1 && *disc == 4 {
+                    out.probes |= probe("as_image_rows_hidden_skipping_consumer");
+                }
+                let want = plan.expected(&model, w, h);
+                match guarded(|| fb.draw_as_image(*caps, *disc, &plan)) {
                     Err(p) => panicked = Some(p),
                     Ok(Err(e)) => {
-                        out.violation = Some(mk(si, "as_image", e));
+                        out.violation = Some(mk(si, "as_image", format!("{} (read-back plan {})", e, plan.to_json().to_string())));
                     }
                     Ok(Ok(mem)) => {
                         for (i, cell) in mem.iter().enumerate() {
-                            if *cell != Some(model[i]) {
+                            if *cell != want[i] {
                                 out.violation = Some(mk(
                                     si,
                                     "as_image",
                                     format!(
-                                        "drawing as_image() put {:?} at ({},{}) but the reference map holds {}",
+                                        "drawing as_image() put {:?} at ({},{}) but the reference map says {:?} (read-back plan {})",
                                         cell,
                                         i as u32 % w,
                                         i as u32 / w,
-                                        model[i]
+                                        want[i],
+                                        plan.to_json().to_string()
                                     ),
                                 ));
                                 break;
